@@ -237,7 +237,20 @@ func c11(c *Ctx) {
 			}
 			grid = append(grid, h.SliceAny(row...))
 		}
-		doc := h.Obj("m", h.Obj(mkv...), "grid", h.SliceAny(grid...), "xs", h.SliceAny(xs...), "nums", h.SliceAny(nums...), "dec", h.Slice("dec", decs...), "typed", h.TypedSlice(typed...),
+		mD := h.Obj(mkv...)
+		switch r.Intn(6) {
+		case 0: // the same object as a decoder of YAML builds it: map[any]any
+			mm := *mD
+			mm.Kty = "any"
+			mD = &mm
+		case 1: // ... with keys that are not strings beside the strings
+			mm := *mD
+			mm.Kty = "any"
+			mm.Ks = append(append([]*D{}, mD.Ks...), h.Int("int", 1), h.Int("int", 2), h.Bool(true))
+			mm.Vs = append(append([]*D{}, mD.Vs...), h.FloatD(11), h.Str("two"), h.FloatD(13))
+			mD = &mm
+		}
+		doc := h.Obj("m", mD, "grid", h.SliceAny(grid...), "xs", h.SliceAny(xs...), "nums", h.SliceAny(nums...), "dec", h.Slice("dec", decs...), "typed", h.TypedSlice(typed...),
 			"s", h.Str(g.pick(genStrings)), "n", g.randNum(), "a", h.FloatD(1), "tiny", h.Dec(12, -17))
 		q := qs[r.Intn(len(qs))]
 		if r.Intn(4) == 0 {
